@@ -488,11 +488,21 @@ func genPipeOne(r *h.Rand, kind int) string {
 		if r.Chance(40) {
 			stop = "stop=-1"
 		}
-		ops := fmt.Sprintf(" ; wait fill %d %d ; suspend", e, k)
+		// `resume` on a running screen is a refused call ("already engaged": an unconditional SIGCONT handler does that); it
+		// must leave the shutdown signalling alone, so the Suspend after it still returns (C06)
+		ops := fmt.Sprintf(" ; wait fill %d %d", e, k)
+		if r.Chance(25) {
+			ops += " ; resume"
+		}
+		ops += " ; suspend"
 		if r.Chance(30) {
 			ops += " ; resume ; wait steps " + fmt.Sprint(r.Range(1, 30)) + " ; suspend"
 		}
-		ops += " ; unpause ; resume ; more ; check2 ; fini"
+		ops += " ; unpause ; resume"
+		if r.Chance(25) {
+			ops += " ; resume ; wait steps " + fmt.Sprint(r.Range(1, 30)) + " ; suspend ; resume"
+		}
+		ops += " ; more ; check2 ; fini"
 		return hdr(steps, exp, expat, fmt.Sprintf("feed2=%s exp2=%s cons=%s %s %s draw=%d", ppJoin(steps2), ppJoin(exp2), ppCons(r), stop, post(), r.Intn(2))) + ops
 	case 5: // PostEvent from several goroutines exactly at capacity-1 / capacity: nil iff enqueued, ErrEventQFull iff not
 		const qcap = 10
